@@ -3,11 +3,14 @@
 from __future__ import annotations
 
 import ast
+import re
 import string
 
 from ..cfg import cfg_of
 from ..model import AnalysisError, NotConst, call_name, calls_in, dotted, norm, walk_no_nested
 from .. import rules
+from .. import conds as cnd
+from . import _codec
 
 META = {
     "explanation": "Loop-progress (termination) rules on the SML tokenizer and the token readers (every iteration consumes a "
@@ -51,6 +54,28 @@ def fold_chars(repo, cls, attr):
     return ev(expr)
 
 
+REF_SML = {
+    "get_token": """
+def get_token(self):
+    self._token_counter += 1
+    return self._tokens[self._token_counter]
+""",
+    "post_delimiter": """
+def _parser_handle_post_delimiter(self, char, current_delimiter, current_token, location):
+    if char == current_delimiter:
+        current_token += char
+        if current_token:
+            self._tokens.append(SMLToken(current_token, location.line, location.column, self))
+            current_token = ""
+        location.reset()
+        current_delimiter = ""
+    else:
+        current_token += char
+    return current_delimiter, current_token
+""",
+}
+
+
 def check_tokenizer(ctx):
     repo = ctx.repo
     f = repo.method("SMLParser", "parse_all", inherited=False)
@@ -84,12 +109,12 @@ def check_tokenizer(ctx):
     pt = repo.method("SMLParser", "peek_token", inherited=False)
     ctx.touch(gt)
     ctx.touch(pt)
-    txt = [norm(s) for s in rules.func_stmts(gt.node)]
-    incs = [s for s in rules.func_stmts(gt.node) if isinstance(s, ast.AugAssign) and norm(s.target) == "self._token_counter"]
-    rets_ = [s for s in rules.func_stmts(gt.node) if isinstance(s, ast.Return)]
-    ok = len(incs) == 1 and isinstance(incs[0].op, ast.Add) and norm(incs[0].value) == "1" and len(rets_) == 1 and norm(rets_[0].value) in ("self._tokens[self._token_counter]", "self.peek_token(0)") and len(txt) == 2
-    ctx.ob("C15.G1", gt.qualname, ok, "get_token advances the cursor by one and returns that token (IndexError past the end)" if ok else
-           f"get_token is {txt}: the cursor must advance by exactly one per call, otherwise reader loops do not progress", where=gt.where)
+    from . import _codec
+
+    _codec.agree(ctx, "C15.G1", gt, REF_SML["get_token"], {
+        "stores": "get_token advances the cursor by exactly one per call (otherwise reader loops do not progress)",
+        "returns": "get_token returns the token at the advanced cursor (IndexError past the end)",
+    }, key_prefix="get-token ")
     ap = pt.node.args.args[1].arg if len(pt.node.args.args) > 1 else "ahead"
     txt = [norm(s) for s in rules.func_stmts(pt.node)]
     prets = [s for s in rules.func_stmts(pt.node) if isinstance(s, ast.Return)]
@@ -99,10 +124,10 @@ def check_tokenizer(ctx):
            f"peek_token is {txt}: clamping or defaulting the index lets a missing closing bracket be satisfied by an earlier token (or loops for ever on a trailing value)", where=pt.where)
     # closing a quoted run: only the opening delimiter closes it
     h = repo.method("SMLParser", "_parser_handle_post_delimiter", inherited=False)
-    hcfg = cfg_of(h.node)
-    tests = [norm(n.ast) for n in hcfg.nodes if n.kind == "test"]
-    ok = "char == current_delimiter" in tests
-    ctx.ob("C15.T1", h.qualname, ok, "a quoted run is closed only by the delimiter that opened it" if ok else f"quoted-run closing test is {tests}", where=h.where)
+    _codec.agree(ctx, "C15.T1", h, REF_SML["post_delimiter"], {
+        "returns": "a quoted run is closed only by the delimiter that opened it; any other character is text of the run",
+        "stores": "the closed run becomes one token",
+    }, key_prefix="quoted-run ")
 
 
 def check_readers(ctx):
@@ -195,8 +220,8 @@ def check_alphabet(ctx):
     ok = bool(hexes) and all(norm(c.args[0]) in ("output.encode(self._encoding)[0]", "char.encode(self._encoding)[0]") for c in hexes)
     ctx.ob("C15.T1", w.qualname, ok, "non-printable characters are written as the byte they encode to under the item's codec" if ok else
            f"escapes are written as {[norm(c.args[0]) for c in hexes]} (code points); the reader takes the number as the encoded byte, which differs for JIS-8", key="escape-write", where=w.where)
-    ok = any(isinstance(s, ast.AugAssign) and norm(s.value) == "cls._char_coder(char)" for s in rules.func_stmts(r.node)) and any(
-        isinstance(s, ast.AugAssign) and ".encode(cls._encoding)" in norm(s.value) for s in rules.func_stmts(r.node))
+    rtext = " ".join(p.value or "" for p in _codec.paths_of(ctx, r))
+    ok = "cls._char_coder(int(cls._verify_value_in_bounds(int(" in rtext and ".encode(cls._encoding)" in rtext
     ctx.ob("C15.T1", r.qualname, ok, "the reader turns escapes into single bytes and runs into bytes of the item's codec" if ok else "the reader does not rebuild the bytes from escapes and encoded runs", key="escape-read", where=r.where)
     for cname in ("ItemA", "ItemJ"):
         cc = repo.method(cname, "_char_coder", inherited=False)
@@ -240,7 +265,7 @@ def check_names_and_numbers(ctx):
     ri = repo.method("Item", "_read_items", inherited=False)
     cfg = cfg_of(ri.node)
     raises = [n for n in cfg.real_nodes() if isinstance(n.ast, ast.Raise)]
-    ok = any("0 < int(length.value) != count" in norm(t) and v for r in raises for t, v in cfg.dominating_conditions(r))
+    ok = any(re.match(r"^int\(length\.value\) == (count|len\(items\))$", t) and not pol for r in raises for t, pol in cnd.facts(cfg, r, fn=ri.node) | cnd.facts(cfg, r))
     ctx.ob("C15.P1", ri.qualname, ok, "a declared list length that differs from the number of members is refused" if ok else "a wrong declared list length is not refused", key="length-check", where=ri.where)
     lw = repo.method("ItemL", "to_sml", inherited=False)
     ok = "[{len(self._value)}]" in norm(lw.node) or "[{len(self)}]" in norm(lw.node)
